@@ -6,6 +6,8 @@ import (
 	"encoding/json"
 	"flag"
 	"fmt"
+
+	"pgregory.net/rapid"
 )
 
 func init() { register("c02-matrix", cmdC02Matrix) }
@@ -141,6 +143,42 @@ func cmdC02Matrix(args []string) {
 					fails = append(fails, map[string]any{"property": "C02", "what": "a panic escaped Check", "cell": key, "program": p.Root.coq(), "detail": o.Escaped, "index": key})
 				}
 			}
+		}
+	}
+	// cells outside the program language: the *T of a Custom generator function used after the function returned
+	// (a fixture value that kept its *T): a non-fatal failure signalled on it still falsifies the test case
+	for vi, how := range []string{"errorf", "error", "fail"} {
+		key := how + "/custom-T-used-after-return/first"
+		if *only != "" && *only != key {
+			continue
+		}
+		var inner *rapid.T
+		g := rapid.Custom(func(t *rapid.T) int {
+			inner = t
+			return rapid.IntRange(0, 9).Draw(t, "v")
+		})
+		prop := func(t *rapid.T) {
+			_ = g.Draw(t, "g")
+			switch how {
+			case "errorf":
+				inner.Errorf("late %d", 7)
+			case "error":
+				inner.Error("late")
+			default:
+				inner.Fail()
+			}
+		}
+		old := setFlags(20, (*seed+uint64(vi))|1, 0, true)
+		tb := &recTB{name: "T"}
+		esc := runTB(func() { rapid.Check(tb, prop) })
+		rapid.VerifSetFlags(old)
+		verdict, _, _, _, _ := classifyTB(tb)
+		stats["cells"]++
+		stats["cells_signalled"]++
+		stats["verdict_"+verdict]++
+		if esc != nil || !tb.failed || !(verdict == "failed" || verdict == "panic") {
+			fails = append(fails, map[string]any{"property": "C02", "what": "a failure signal was lost: error in custom-T-used-after-return",
+				"cell": key, "program": "Custom fn keeps its *T; the property calls " + how + " on it after the draw", "verdict": verdict, "index": key})
 		}
 	}
 	js, _ := json.Marshal(map[string]any{"stats": stats, "failures": fails, "samples": samples})
